@@ -14,6 +14,34 @@ CHECKS = {
         "Trusted: the spec->object builder (mc/build.py) and numpy. Bounds and domain restriction are listed in the evidence assumptions.",
         "5/C01",
     ),
+    "C02": (
+        "model_checking",
+        "bounded exhaustive enumeration of model structures x extreme value levels x step sizes on the real simulator; sign/finiteness/over-draw and common-scaling invariants checked in every reached state",
+        "Same exhaustive structure space as C01 with the extreme value alphabet and a negative-function sub-space; every time index of every run is a state in which every stock, bin and flow is checked, and every pair of competing outflows is checked for ratio preservation against fractions recomputed from the result's parameter values.",
+        "Trusted: spec builder, the harness's re-computation of requested fractions (documented conversions). Bounds in the evidence assumptions.",
+        "5/C02",
+    ),
+    "C03": (
+        "model_checking",
+        "explicit-state BFS over ProjectSettings operation histories with exact-arithmetic grid invariants + reference simulator whose every trace is replayed against the implementation at every time index",
+        "(a) all states of the (start,end,dt) settings machine reachable within the depth bound are visited and the grid invariants checked in each; (b) an independent re-implementation written from the documentation is run on every model of the bounded structure space and compared with the real simulator at every index (conformance is the check, so the model is bound to the code by construction).",
+        "Trusted: mc/refsim.py as a faithful reading of the documentation (unit-tested in mc/selftest.py), exact rational arithmetic of Python fractions.",
+        "5/C03",
+    ),
+    "C04": (
+        "model_checking",
+        "bounded exhaustive enumeration of junction gadgets x proportion vectors x proportion sources x initial contents; junction invariants checked in every state, initial flush against the reference model",
+        "Every junction sub-graph shape named in the property (single, residual, fan, chain, diamond, residual feeding a plain junction, in/out of a duration group) is enumerated with all proportion vectors over the level alphabet; emptiness, balance and the documented share are checked at every time index.",
+        "Trusted: spec builder; shares recomputed from the result's own proportion values; reference initial flush in mc/refsim.py.",
+        "5/C04",
+    ),
+    "C05": (
+        "model_checking",
+        "exhaustive enumeration of (D,dt) pairs x all inflow histories up to a length bound x outflow levels on the real simulator, compared bin-by-bin with a reference cohort model; cohort inequalities checked in every state",
+        "All inflow histories over a 3-level alphabet up to the length bound are driven through timed compartments for every (D,dt) pair of the alphabet (including D/dt integer only up to rounding error); each trace of the reference cohort model is replayed against the implementation and the property's inequalities are evaluated at every index.",
+        "Trusted: mc/refsim.py cohort semantics (documentation reading), spec builder.",
+        "5/C05",
+    ),
 }
 
 PENDING_REASON = "check not built yet in this session (see DESIGN.md section 8 for the build order); no claim is made"
